@@ -1330,6 +1330,10 @@ static int cfg_parse_internal(cfg_t *cfg, int level, int force_state, cfg_opt_t 
 			return STATE_EOF;
 		}
 
+		/* a comment may appear between any two tokens */
+		if (tok == CFGT_COMMENT && state != 0)
+			continue;
+
 		switch (state) {
 		case 0:	/* expecting an option name */
 			if (opt && is_set(CFGF_DEPRECATED, opt->flags))
